@@ -239,11 +239,11 @@ func (e *hdEnv) checkDerivation(c hdCase) {
 	}
 	got, err := evDerive(c.mnemonic, c.pass, path)
 	if err != nil {
-		run.Violation("hd-derive-error:"+class, c.label, w(map[string]any{"error": err.Error()}))
+		viol(run, "hd-derive-error:"+class, c.label, w(map[string]any{"error": err.Error()}))
 		return
 	}
 	if !bytes.Equal(got, want) {
-		run.Violation("hd-derive-mismatch:"+class, c.label, w(map[string]any{"observed_key": hex.EncodeToString(got)}))
+		viol(run, "hd-derive-mismatch:"+class, c.label, w(map[string]any{"observed_key": hex.EncodeToString(got)}))
 		return
 	}
 	// the wallet address of the derived key, against btcec + keccak on the reference key
@@ -251,16 +251,16 @@ func (e *hdEnv) checkDerivation(c hdCase) {
 	wantAddr, _ := independentAddress(refPub.SerializeCompressed())
 	gotAddr := evhd.EthSecp256k1.Generate()(got).PubKey().Address().Bytes()
 	if !bytes.Equal(gotAddr, wantAddr) {
-		run.Violation("hd-address-mismatch:"+class, c.label, w(map[string]any{"expected_address": hex.EncodeToString(wantAddr), "observed_address": hex.EncodeToString(gotAddr)}))
+		viol(run, "hd-address-mismatch:"+class, c.label, w(map[string]any{"expected_address": hex.EncodeToString(wantAddr), "observed_address": hex.EncodeToString(gotAddr)}))
 	}
 	if c.keyring {
 		// the same through the SDK keyring configured with evermint's algorithm option (what `keys add --recover` runs)
 		kr := keyring.NewInMemory(e.enc.Codec, evhd.MultiSecp256k1Option())
 		rec, err := kr.NewAccount("k", c.mnemonic, c.pass, path, evhd.EthSecp256k1)
 		if err != nil {
-			run.Violation("hd-keyring-error:"+class, c.label, w(map[string]any{"error": err.Error()}))
+			viol(run, "hd-keyring-error:"+class, c.label, w(map[string]any{"error": err.Error()}))
 		} else if pk, err := rec.GetPubKey(); err != nil || !bytes.Equal(pk.Bytes(), refPub.SerializeCompressed()) || !bytes.Equal(pk.Address(), wantAddr) {
-			run.Violation("hd-keyring-mismatch:"+class, c.label, w(map[string]any{"error": fmt.Sprint(err)}))
+			viol(run, "hd-keyring-mismatch:"+class, c.label, w(map[string]any{"error": fmt.Sprint(err)}))
 		} else {
 			run.Count("hd.keyring-account-matches", 1)
 		}
@@ -487,7 +487,7 @@ func (e *hdEnv) vectors() {
 			run.Eval(1)
 			if !bytes.Equal(ref, want) {
 				// the oracle itself would be wrong: never silently continue
-				run.Violation("hd-vector-mismatch:reference-vs-bip32", label, map[string]any{"vector": v.name, "path": c.path, "expected": hex.EncodeToString(want), "reference": hex.EncodeToString(ref)})
+				viol(run, "hd-vector-mismatch:reference-vs-bip32", label, map[string]any{"vector": v.name, "path": c.path, "expected": hex.EncodeToString(want), "reference": hex.EncodeToString(ref)})
 			} else {
 				run.Count("hd.vector-ok:bip32-reference", 1)
 			}
@@ -506,7 +506,7 @@ func (e *hdEnv) vectors() {
 				}
 			}
 			if err != nil || !bytes.Equal(lib, want) {
-				run.Violation("hd-vector-mismatch:hdkeychain-vs-bip32", label, map[string]any{"vector": v.name, "path": c.path, "expected": hex.EncodeToString(want), "observed": hex.EncodeToString(lib), "error": fmt.Sprint(err)})
+				viol(run, "hd-vector-mismatch:hdkeychain-vs-bip32", label, map[string]any{"vector": v.name, "path": c.path, "expected": hex.EncodeToString(want), "observed": hex.EncodeToString(lib), "error": fmt.Sprint(err)})
 			} else {
 				run.Count("hd.vector-ok:bip32-hdkeychain", 1)
 			}
@@ -530,7 +530,7 @@ func (e *hdEnv) vectors() {
 		seedEv, err := tsbip39.NewSeedWithErrorChecking(v.mnemonic, v.pass) // the function evermint's Derive calls
 		master, _ := sdkhd.ComputeMastersFromSeed(seedRef)
 		if err != nil || !bytes.Equal(seedRef, seedEv) || !bytes.Equal(master[:], want) {
-			run.Violation("hd-vector-mismatch:bip39-seed", label, map[string]any{"mnemonic": v.mnemonic, "passphrase": v.pass, "expected_master": hex.EncodeToString(want),
+			viol(run, "hd-vector-mismatch:bip39-seed", label, map[string]any{"mnemonic": v.mnemonic, "passphrase": v.pass, "expected_master": hex.EncodeToString(want),
 				"reference_master": hex.EncodeToString(master[:]), "seeds_equal": bytes.Equal(seedRef, seedEv), "error": fmt.Sprint(err)})
 		} else {
 			run.Count("hd.vector-ok:bip39-seed", 1)
@@ -553,7 +553,7 @@ func (e *hdEnv) vectors() {
 			addr = common.BytesToAddress(evhd.EthSecp256k1.Generate()(got).PubKey().Address())
 		}
 		if err != nil || addr != common.HexToAddress(v.address) || (v.priv != "" && hex.EncodeToString(got) != v.priv) {
-			run.Violation("hd-vector-mismatch:ethereum-wallet", label, map[string]any{"vector": v.name, "mnemonic": v.mnemonic, "path": v.path,
+			viol(run, "hd-vector-mismatch:ethereum-wallet", label, map[string]any{"vector": v.name, "mnemonic": v.mnemonic, "path": v.path,
 				"expected_address": v.address, "observed_address": addr.Hex(), "expected_key": v.priv, "observed_key": hex.EncodeToString(got), "error": fmt.Sprint(err)})
 		} else {
 			run.Count("hd.vector-ok:ethereum-wallet", 1)
